@@ -15,6 +15,17 @@ class MachineryError(Exception):
     pass
 
 
+def nonull(o):
+    """TLC's JSON reader has no null: None -> "none" (recursively)"""
+    if o is None:
+        return 'none'
+    if isinstance(o, dict):
+        return {str(k): nonull(v) for k, v in o.items()}
+    if isinstance(o, (list, tuple)):
+        return [nonull(v) for v in o]
+    return o
+
+
 def import_repo():
     """Put the tree under test first on sys.path and make sure it is the one imported."""
     if sys.path[0] != REPO:
@@ -27,10 +38,10 @@ def import_repo():
     if not f.startswith(os.path.realpath(REPO) + os.sep):
         raise MachineryError(f'leuvenmapmatching imported from {f}, not from {REPO}')
     lg = logging.getLogger("be.kuleuven.cs.dtai.mapmatching")
-    if not lg.handlers:
+    if not lg.handlers:            # first call only: later calls must not reset a level chosen by a check
         lg.addHandler(logging.NullHandler())
-    lg.setLevel(logging.ERROR)
-    lg.propagate = False
+        lg.setLevel(logging.ERROR)
+        lg.propagate = False
     return leuvenmapmatching
 
 
